@@ -301,3 +301,16 @@ def guard_formula(fi: FuncInfo, node: ast.AST, keep=None) -> Formula:
 def truth(fi: FuncInfo, text: str | ast.expr, keep=None) -> Formula:
     """Formula of `text` (an expression over the function's variables) with the same copy propagation as guard_formula."""
     return to_formula(ast.parse(text, mode="eval").body if isinstance(text, str) else text, copy_prop(fi, keep))
+
+
+def helper_object_sources(fi, sources) -> list:
+    """Worklist start expressions of the form `Cls(...)` where `Cls` is a class defined in the function's own module: the start set is
+    owned by a helper object the search model does not read, so 'does not start from the subject's sub-tree' cannot be concluded."""
+    import re as _re
+
+    out = []
+    for s_ in sources or []:
+        m_ = _re.match(r"^([A-Za-z_]\w*)\(", s_)
+        if m_ and m_.group(1) in getattr(fi.module, "classes", {}):
+            out.append(s_)
+    return out
